@@ -109,7 +109,7 @@ func isUnmappedResult(v uint32, err error) error {
 	if err == nil {
 		return nil
 	}
-	if err != util.ErrUnmappedAddress || !errors.Is(err, util.ErrUnmappedAddress) {
+	if !errors.Is(err, util.ErrUnmappedAddress) { // the sentinel itself or an error wrapping it
 		return fmt.Errorf("error is %v, not the unmapped-address error", err)
 	}
 	if v != 0 {
